@@ -93,7 +93,8 @@ const SAFE_NAMES: [&str; 6] = ["name", "mail", "x", "userName", "a-b_9", "notes"
 /// scalar values; `safe` = its JSON text has no space, bracket or parenthesis (the dumb lexer can split it)
 fn rand_value(rng: &mut Rng, safe: bool) -> JsonValue {
     let strs_safe = ["", "a", "bob", "a\"b", "back\\slash", "tab\there", "uni\u{00e9}\u{4e16}", "nul\u{0000}l", "x\"", "\\"];
-    let strs_any = ["with space", "(paren)", "a) or (b pr", "[br]", "new\nline", " lead", "a and b", "q\" )", "]"];
+    let strs_any = ["with space", "(paren)", "a) or (b pr", "[br]", "new\nline", " lead", "a and b", "q\" )", "]",
+                    "dir C:\\tmp\\", "x \\", "(\\\\", "\" \\"];
     match rng.below(8) {
         0 => json!(rng.below(1000)),
         1 => json!(-(rng.below(100000) as i64)),
@@ -174,6 +175,91 @@ fn cfrom_json(j: &J) -> Option<ScimComplexFilter> {
         }
         _ => return None,
     })
+}
+
+// ---- the second copy of the grammar / printer: scim_proto::filter (libs/scim_proto/src/filter.rs)
+use scim_proto::filter as g2;
+fn to_json2(f: &g2::ScimFilter) -> J {
+    let leaf = |p: &g2::AttrPath, op: &str, v: Option<&JsonValue>| json!({"k":"leaf","p":p.to_string(),"op":op,"v":v.map(vtext).unwrap_or_default()});
+    match f {
+        g2::ScimFilter::Or(a, b) => json!({"k":"or","l":to_json2(a),"r":to_json2(b)}),
+        g2::ScimFilter::And(a, b) => json!({"k":"and","l":to_json2(a),"r":to_json2(b)}),
+        g2::ScimFilter::Not(e) => json!({"k":"not","e":to_json2(e)}),
+        g2::ScimFilter::Present(p) => leaf(p, "pr", None),
+        g2::ScimFilter::Equal(p, v) => leaf(p, "eq", Some(v)),
+        g2::ScimFilter::NotEqual(p, v) => leaf(p, "ne", Some(v)),
+        g2::ScimFilter::Contains(p, v) => leaf(p, "co", Some(v)),
+        g2::ScimFilter::StartsWith(p, v) => leaf(p, "sw", Some(v)),
+        g2::ScimFilter::EndsWith(p, v) => leaf(p, "ew", Some(v)),
+        g2::ScimFilter::Greater(p, v) => leaf(p, "gt", Some(v)),
+        g2::ScimFilter::Less(p, v) => leaf(p, "lt", Some(v)),
+        g2::ScimFilter::GreaterOrEqual(p, v) => leaf(p, "ge", Some(v)),
+        g2::ScimFilter::LessOrEqual(p, v) => leaf(p, "le", Some(v)),
+        g2::ScimFilter::Complex(a, e) => json!({"k":"cx","a":a,"e":cto_json2(e)}),
+    }
+}
+fn cto_json2(f: &g2::ScimComplexFilter) -> J {
+    let leaf = |p: &String, op: &str, v: Option<&JsonValue>| json!({"k":"leaf","p":p,"op":op,"v":v.map(vtext).unwrap_or_default()});
+    match f {
+        g2::ScimComplexFilter::Or(a, b) => json!({"k":"or","l":cto_json2(a),"r":cto_json2(b)}),
+        g2::ScimComplexFilter::And(a, b) => json!({"k":"and","l":cto_json2(a),"r":cto_json2(b)}),
+        g2::ScimComplexFilter::Not(e) => json!({"k":"not","e":cto_json2(e)}),
+        g2::ScimComplexFilter::Present(p) => leaf(p, "pr", None),
+        g2::ScimComplexFilter::Equal(p, v) => leaf(p, "eq", Some(v)),
+        g2::ScimComplexFilter::NotEqual(p, v) => leaf(p, "ne", Some(v)),
+        g2::ScimComplexFilter::Contains(p, v) => leaf(p, "co", Some(v)),
+        g2::ScimComplexFilter::StartsWith(p, v) => leaf(p, "sw", Some(v)),
+        g2::ScimComplexFilter::EndsWith(p, v) => leaf(p, "ew", Some(v)),
+        g2::ScimComplexFilter::Greater(p, v) => leaf(p, "gt", Some(v)),
+        g2::ScimComplexFilter::Less(p, v) => leaf(p, "lt", Some(v)),
+        g2::ScimComplexFilter::GreaterOrEqual(p, v) => leaf(p, "ge", Some(v)),
+        g2::ScimComplexFilter::LessOrEqual(p, v) => leaf(p, "le", Some(v)),
+    }
+}
+fn chars_json(s: &str) -> Vec<String> {
+    s.chars().map(|c| c.to_string()).collect()
+}
+/// One string value through print -> parse of BOTH grammar copies, in three positions: plain leaf, left operand of an AND
+/// (text continues after the value), inside a complex filter.  `vc` / `vt`: characters of the value and of its printed text.
+fn emit_value_family(tr: &mut Tracer, val: &str, shapes: u64) {
+    let v = json!(val);
+    let vt = vtext(&v);
+    for shape in 0..shapes {
+        // copy 1: kanidm_proto::scim_v1
+        let leaf1 = mk_leaf(AttrPath { a: Attribute::from("x"), s: None }, "eq", v.clone());
+        let f1 = match shape {
+            0 => leaf1,
+            1 => ScimFilter::And(Box::new(leaf1), Box::new(pr_leaf("name"))),
+            _ => ScimFilter::Complex(Attribute::from("m"), Box::new(mk_cleaf(SubAttribute::from("s"), "co", v.clone()))),
+        };
+        let text = f1.to_string();
+        let (pj, pf) = parse_json(&text);
+        let same = pf.as_ref().map(|p| *p == f1).unwrap_or(false);
+        tr.emit(&json!({"a":"rt","g":1,"ast":to_json(&f1),"text":text,"lex":false,"toks":[],"parsed":pj,"same":same,"lim":LIMIT,
+            "vc":chars_json(val),"vt":chars_json(&vt)}));
+        // copy 2: scim_proto::filter
+        let p2 = match g2::AttrPath::from_str("x") {
+            Ok(p) => p,
+            Err(_) => {
+                eprintln!("TOOL-ERROR scim_proto attrpath");
+                std::process::exit(2)
+            }
+        };
+        let leaf2 = g2::ScimFilter::Equal(p2, v.clone());
+        let f2 = match shape {
+            0 => leaf2,
+            1 => g2::ScimFilter::And(Box::new(leaf2), Box::new(g2::ScimFilter::Present(g2::AttrPath::from_str("name").unwrap_or_else(|_| std::process::exit(2))))),
+            _ => g2::ScimFilter::Complex("m".to_string(), Box::new(g2::ScimComplexFilter::Contains("s".to_string(), v.clone()))),
+        };
+        let text2 = f2.to_string();
+        let (pj2, same2) = match catch(|| g2::ScimFilter::from_str(&text2)) {
+            Ok(Ok(p)) => (to_json2(&p), p == f2),
+            Ok(Err(_)) => (json!({"k":"err"}), false),
+            Err(_) => (json!({"k":"panic"}), false),
+        };
+        tr.emit(&json!({"a":"rt","g":2,"ast":to_json2(&f2),"text":text2,"lex":false,"toks":[],"parsed":pj2,"same":same2,"lim":LIMIT,
+            "vc":chars_json(val),"vt":chars_json(&vt)}));
+    }
 }
 
 fn tok(t: &str, s: &str) -> J {
@@ -303,6 +389,11 @@ pub fn run(o: &Opts) -> i32 {
     if let Some(rp) = o.get("replay") {
         for r in read_ndjson(rp) {
             match r["a"].as_str().unwrap_or("") {
+                // a line of the string-value family: the whole family of that value again (both grammar copies)
+                "rt" if r.get("vc").is_some() => {
+                    let val: String = r["vc"].as_array().map(|v| v.iter().filter_map(|c| c.as_str()).collect()).unwrap_or_default();
+                    emit_value_family(&mut tr, &val, 3);
+                }
                 "rt" => match from_json(&r["ast"]) {
                     Some(f) => emit_rt(&mut tr, &f, r["lex"].as_bool().unwrap_or(false)),
                     None => {
@@ -431,6 +522,33 @@ pub fn run(o: &Opts) -> i32 {
         emit_rt(&mut tr, &r, true);
         emit_rt(&mut tr, &nn, true);
     }
+    // (A4) string values: every string over {a, blank, ( ) [ ] backslash quote tab} up to `vlen` characters - backslash and quote at
+    //      EVERY position including the last, together with separators / brackets in the same value - through both grammar copies
+    let vlen = o.u64("vlen", 3);
+    let alpha: [char; 9] = ['a', ' ', '(', ')', '[', ']', '\\', '"', '\t'];
+    let mut vals: Vec<String> = vec![String::new()];
+    let mut layer: Vec<String> = vec![String::new()];
+    for _ in 0..vlen {
+        let mut nx = Vec::new();
+        for s in &layer {
+            for c in alpha.iter() {
+                let mut t = s.clone();
+                t.push(*c);
+                nx.push(t);
+            }
+        }
+        vals.extend(nx.iter().cloned());
+        layer = nx;
+    }
+    let mut n_vals = 0u64;
+    for v in &vals {
+        // lengths <= 2 in all three positions, longer ones as a plain leaf
+        emit_value_family(&mut tr, v, if v.chars().count() <= 2 { 3 } else { 1 });
+        n_vals += 1;
+    }
+    for v in ["C:\\Program Files\\", "a \\", "(x)\\\\", "say \"hi\" \\", "tab\t\\ ", "] \\\""] {
+        emit_value_family(&mut tr, v, 3);
+    }
     // (B) seeded random: ASTs with every operator, paths with sub-attributes, keyword-named attributes, complex filters, nasty literals;
     //     infix strings with minimal / redundant parentheses; garbage token strings
     let depth = o.u64("depth", 5);
@@ -452,6 +570,6 @@ pub fn run(o: &Opts) -> i32 {
             emit_prec(&mut tr, &toks);
         }
     }
-    println!("OBSERVED lines={} asts={n_ast} prec={n_prec} out={out}", tr.finish());
+    println!("OBSERVED lines={} asts={n_ast} prec={n_prec} values={n_vals} out={out}", tr.finish());
     0
 }
